@@ -194,36 +194,39 @@ class NetCDF4Array(NetCDFFileMixin, FileArrayMixin, abstract.Array):
         netcdf, address = self.open()
         dataset = netcdf
 
-        groups, address = self.get_groups(address)
-        if groups:
-            # Traverse the group structure, if there is one (CF>=1.8).
-            netcdf = self._group(netcdf, groups)
+        try:
+            groups, address = self.get_groups(address)
+            if groups:
+                # Traverse the group structure, if there is one
+                # (CF>=1.8).
+                netcdf = self._group(netcdf, groups)
 
-        if isinstance(address, str):
-            # Get the variable by netCDF name
-            variable = netcdf.variables[address]
-        else:
-            # Get the variable by netCDF integer ID
-            for variable in netcdf.variables.values():
-                if variable._varid == address:
-                    break
+            if isinstance(address, str):
+                # Get the variable by netCDF name
+                variable = netcdf.variables[address]
+            else:
+                # Get the variable by netCDF integer ID
+                for variable in netcdf.variables.values():
+                    if variable._varid == address:
+                        break
 
-        # Get the data, applying masking and scaling as required.
-        array = netcdf_indexer(
-            variable,
-            mask=self.get_mask(),
-            unpack=self.get_unpack(),
-            always_masked_array=False,
-            orthogonal_indexing=True,
-            copy=False,
-        )
-        array = array[indices]
+            # Get the data, applying masking and scaling as required.
+            array = netcdf_indexer(
+                variable,
+                mask=self.get_mask(),
+                unpack=self.get_unpack(),
+                always_masked_array=False,
+                orthogonal_indexing=True,
+                copy=False,
+            )
+            array = array[indices]
 
-        # Set the attributes, if they haven't been set already.
-        self._set_attributes(variable)
-
-        self.close(dataset)
-        del netcdf, dataset
+            # Set the attributes, if they haven't been set already.
+            self._set_attributes(variable)
+        finally:
+            # Close the file, also when the data access failed
+            self.close(dataset)
+            del netcdf, dataset
 
         if not self.ndim:
             # Hmm netCDF4 has a thing for making scalar size 1, 1d
